@@ -6,7 +6,9 @@
 (* frozen (TrackLast = FALSE) in the exhaustive configurations.           *)
 EXTENDS Reader, TLC
 
-CONSTANTS MaxApp, MaxTog, Starts, CapSet, AtomicSet, TrackLast, UseRoller
+\* SplitNew: NewReader as the two steps of the code (HW load | rest); FALSE = the whole call as one step (stimuli
+\* of the lock-step gated replay: newReaderCommitted has no gate, the driver executes the call in one piece)
+CONSTANTS MaxApp, MaxTog, Starts, CapSet, AtomicSet, TrackLast, UseRoller, SplitNew
 VARIABLES last, nApp, nTog
 mcvars == <<vars, last, nApp, nTog>>
 
@@ -37,7 +39,7 @@ MCTogBegin(b) == nTog < MaxTog /\ b # ro /\ TogStore(b) /\ nTog' = nTog + 1 /\ U
 MCTogStep == TogNotify /\ Keep /\ Step([a |-> "Step", p |-> "tog"])
 \* readers are interchangeable: r2 is created after r1
 MCNewReader(r, s) == /\ (r = "r2" => rd["r1"].pc # "none")
-                     /\ DoNewReader(r, s) /\ Keep /\ Step([a |-> "NewReader", r |-> r, s |-> s])
+                     /\ (IF SplitNew THEN DoNewReader(r, s) ELSE DoNewReaderAtomic(r, s)) /\ Keep /\ Step([a |-> "NewReader", r |-> r, s |-> s])
 MCRStep(r) == RNext(r) /\ Keep /\ Step([a |-> "Step", p |-> r])
 
 MCNext ==
